@@ -7,6 +7,22 @@ selection (RNG owned by the harness).  Oracle: after a forward,
 with theta read after the forward and the branch / fixed-layer costs recomputed independently on the ORIGINAL modules
 (own fx walk + ShapeProp); min_i <= block cost <= max_i; under hard selection cost(full_cost=True) == refcost(export());
 per-invocation metrics count a block used twice twice, shared ones once.
+
+All configurations of one program are visited on ONE live SuperNet.  On top of the configuration, a *protocol* (a short sequence
+of public-API operations on that live object) is attached to every visited configuration:
+   plain        set the configuration, forward, read the costs (dictionary specification given at construction)
+   spec-single  the metric is re-assigned through the `cost_specification` setter: dictionary -> single spec A -> single spec B ->
+                the original dictionary; `cost` is compared with the reference of the metric in force after EVERY assignment
+   spec-dict    dictionary -> another dictionary (entries reordered / renamed / names swapped between the two metrics / one entry
+                only) -> the original dictionary; every name is compared with the reference of the metric it is bound to
+   ts-off       `train_selection = False`, then a neighbouring configuration (differing in the coefficient vector / temperature /
+                hard switch / full_cost / all of them, and always in the Gumbel seed) is visited and compared, then the
+                configuration itself (train_selection put back to True at the end)
+   ts-on        as ts-off, but `train_selection = True` again between the neighbouring configuration and the configuration itself
+The oracle is the same for every step of every protocol (the cost is a function of the metric in force, the sampled coefficients
+and full_cost only); every state ends with the original dictionary specification and train_selection True, and the replay case of a
+violation is the state alone if that reproduces it on a fresh SuperNet, else the state preceded by the states executed since the last
+re-assignment of the specification (`after`).
 """
 import itertools
 
@@ -21,17 +37,37 @@ from .c03 import make, _shape_sig
 
 PID = 'C06'
 GRID = [-1.0, 0.0, 0.5, 2.0]
+PROTOS = ['plain', 'spec-single', 'ts-off', 'spec-dict', 'ts-on']
+# quick tier: one protocol per configuration, rotating with a period (7) coprime to the sizes of the enumeration loops (2, 6, 3)
+QUICK_ROT = ['plain', 'spec-single', 'plain', 'ts-off', 'spec-dict', 'plain', 'ts-on']
+ASPECTS = ['vec', 'T', 'mode', 'full_cost', 'all']
+DICT_KINDS = {'reordered': [('ops', 'ops'), ('params', 'params')], 'renamed': [('m0', 'ops'), ('m1', 'params')],
+              'swapped': [('params', 'ops'), ('ops', 'params')], 'only-ops': [('ops', 'ops')], 'only-params': [('params', 'params')]}
+DICT_ROT = ['swapped', 'reordered', 'only-ops', 'renamed', 'only-params']
+MODES = [('soft', False), ('soft', True), ('hard', True), ('hard', False), ('gumbel', True), ('gumbel-hard', True)]
+TRAIL = 12
+MODE_SWAP = {'soft': 'hard', 'hard': 'soft', 'gumbel': 'gumbel-hard', 'gumbel-hard': 'gumbel'}
 RULE = ('programs: G_sn (as C03); configurations: coefficient vectors from ' + str(GRID) + '^n per block (complete product for n <= 4, all one-element '
         'deviations from each uniform vector beyond; blocks combined by rotating the vectors) x T in {0.05,1,20} x {soft, hard, gumbel, gumbel+hard} x '
-        'train/eval x full_cost off/on; metrics params (shared) and ops (per-invocation), as dictionary; non-trivial = a configuration with non-uniform '
-        'coefficients')
+        'train/eval x full_cost off/on; metrics params (shared) and ops (per-invocation), as dictionary; all configurations of a program on one live '
+        'SuperNet; protocols on that live object: plain / spec-single (cost_specification setter: dict -> single A -> single B -> original dict, cost '
+        'compared after every assignment) / spec-dict (dict -> reordered, renamed, name-swapped or one-entry dict -> original dict) / ts-off '
+        '(train_selection=False, a neighbouring configuration differing in vector, T, hard, full_cost or all is visited and compared, then the '
+        'configuration itself) / ts-on (the same with train_selection=True again in between); quick: one protocol per configuration rotating with '
+        'period 7 (3 plain : 4 others), thorough: every protocol on every configuration; non-trivial = a (configuration, protocol, variant) triple, '
+        'key suffix /<protocol>.<variant> for the non-plain ones')
 ASSUMPTIONS = ['branch / fixed-layer reference costs come from an independent fx walk with shape propagation over the original user modules',
-               'Gumbel noise owned by seeding; theta is read from the combiner after the forward']
+               'Gumbel noise owned by seeding; theta is read from the combiner after the forward',
+               'the reference for a metric (re-)assigned through the cost_specification setter is the one used for the same metric given at construction: '
+               'the cost is taken to depend on the specification in force, the sampled coefficients and full_cost only, not on how / when they were set',
+               'train_selection only decides whether the coefficients are trainable (requires_grad); it is not allowed to change or freeze the cost value']
 
 
 def bounds(tier):
-    return {'quick': {'grid': GRID, 'complete_upto_branches': 3, 'temperatures': [0.05, 1.0, 20.0]},
-            'thorough': {'grid': GRID, 'complete_upto_branches': 4, 'temperatures': [0.05, 1.0, 20.0]}}[tier]
+    return {'quick': {'grid': GRID, 'complete_upto_branches': 3, 'temperatures': [0.05, 1.0, 20.0],
+                      'protocols': 'one per configuration, rotation ' + '/'.join(QUICK_ROT)},
+            'thorough': {'grid': GRID, 'complete_upto_branches': 4, 'temperatures': [0.05, 1.0, 20.0],
+                         'protocols': 'all of ' + '/'.join(PROTOS) + ' on every configuration'}}[tier]
 
 
 def cases(tier, seed):
@@ -104,19 +140,41 @@ def _block_refcosts(prog, model, x):
     return blocks, {'params': fixed['params'], 'ops': fixed['ops']}
 
 
+def _neighbour(cfg, aspect, nmax, temps):
+    """the configuration visited before `cfg` in the ts-off / ts-on protocols: one aspect (or all of them) changed"""
+    pre = dict(cfg)
+    if aspect in ('vec', 'all'):
+        pre['vec'] = (cfg['vec'] + 1) % nmax
+    if aspect in ('T', 'all'):
+        pre['T'] = temps[(temps.index(cfg['T']) + 1) % len(temps)]
+    if aspect in ('mode', 'all'):
+        pre['mode'] = MODE_SWAP[cfg['mode']]
+    if aspect in ('full_cost', 'all'):
+        pre['full_cost'] = not cfg['full_cost']
+    return pre
+
+
 def run_case(case, seed):
     prog = case['prog']
     tier = case.get('tier', 'quick')
     b = bounds(tier)
     res = {'states': 0, 'transitions': 0, 'evals': 0, 'nontrivial': [], 'outcomes': set(), 'violations': []}
-    base_case = {k: v for k, v in case.items() if k != 'only'}
+    base_case = {k: v for k, v in case.items() if k not in ('only', 'after')}
     ssig = _shape_sig(prog)
+    # labels of the states executed on the live object since (and including) the most recent state that went through the
+    # cost_specification setter (at most TRAIL of them): the part of the history a replay on a fresh object may need
+    trail = []
 
     def add(kind, sig, msg, label):
         res['outcomes'].add(kind)
-        res['violations'].append({'kind': kind, 'sig': sig, 'msg': f'{ssig}: {label}: {msg}', 'case': dict(base_case, only=label)})
+        c = dict(base_case, only=label)
+        if label is not None and trail:
+            # provisional: dropped again at the end of the run if the state alone, on a fresh SuperNet, shows the same violation
+            c['after'] = list(trail)
+        res['violations'].append({'kind': kind, 'sig': sig, 'msg': f'{ssig}: {label}: {msg}', 'case': c})
 
     from plinio.cost import params, ops
+    SPEC = {'params': params, 'ops': ops}
     try:
         nas, x, model = make(prog, seed, cost={'params': params, 'ops': ops})
         ref_model, _ = G2.build(prog, seed, positive_input=False)
@@ -132,67 +190,204 @@ def run_case(case, seed):
     bnames = [cn[len('seed.'):].rsplit('.', 1)[0] for cn, _ in combs]
     vecs = [_vectors(m.n_branches, b['complete_upto_branches']) for _, m in combs]
     nmax = max(len(v) for v in vecs)
-    only = case.get('only')
-    modes = [('soft', False), ('soft', True), ('hard', True), ('hard', False), ('gumbel', True), ('gumbel-hard', True)]
+    temps = b['temperatures']
+    after = case.get('after') or []
+    wanted = [w for w in (list(after) if isinstance(after, list) else [after]) + [case.get('only')] if w is not None]
+
+    def selected(label):
+        if not wanted:
+            return True
+        # a label without 'proto' names the plain protocol; 'var' is a function of the configuration
+        return any(all(label[k] == w.get(k) for k in ('vec', 'T', 'mode', 'training', 'full_cost'))
+                   and label.get('proto', 'plain') == w.get('proto', 'plain') for w in wanted)
+
+    def set_config(cfg):
+        with torch.no_grad():
+            for bi, (_, m) in enumerate(combs):
+                v = vecs[bi][(cfg['vec'] * (bi + 1) + bi) % len(vecs[bi])]
+                m.alpha.copy_(torch.tensor(v))
+                m.sample_alpha = m.sample_alpha_gs if cfg['mode'].startswith('gumbel') else m.sample_alpha_sm
+        nas.update_softmax_options(temperature=cfg['T'], hard=cfg['mode'] in ('hard', 'gumbel-hard'))
+        nas.train(cfg['training'])
+        nas.full_cost = cfg['full_cost']
+        res['states'] += 1
+        res['transitions'] += 1
+
+    def forward(cfg, seed_off=0):
+        # same CPU stream as torch.manual_seed(), without its per-call device bookkeeping (0.6 ms, half the price of a forward here)
+        torch.default_generator.manual_seed(4242 + cfg['vec'] + seed_off)
+        with torch.no_grad():
+            nas(x)
+
+    def read_thetas():
+        return [m.theta_alpha.detach().clone() for _, m in combs]
+
+    def compare(got, binding, full, thetas, label, tag):
+        """got: {name: value}; binding: [(name, metric)]; the oracle of the property, the same for every step of every protocol"""
+        sfx = '' if tag is None else '/proto=' + tag
+        for name, metric in binding:
+            res['evals'] += 1
+            want = fixed[metric] if full else 0.0
+            lo = hi = want
+            for bn, th in zip(bnames, thetas):
+                bc = [br[metric] for br in blocks[bn]['branches']]
+                want += sum(float(t) * c for t, c in zip(th, bc))
+                lo += min(bc)
+                hi += max(bc)
+            what = f'get_cost({name})' if name == metric else (f'cost [specification = {metric}]' if name is None else f'get_cost({name}) [bound to {metric}]')
+            where = '' if tag is None else f' [protocol step {tag}]'
+            ok, why = tol.cost_close(got[name], want)
+            if not (abs(got[name] - want) <= 1e-3 + 2e-5 * max(abs(want), 1)):
+                add('cost-not-weighted-mix', f'cost-not-weighted-mix/{metric}/full={int(full)}' + sfx,
+                    f'{what}={got[name]} but sum_i theta_i*cost_i (+fixed) = {want} '
+                    f'(theta={[[round(float(t), 4) for t in th] for th in thetas]}){where}', label)
+            if got[name] < lo - 1e-3 - 2e-5 * abs(lo) or got[name] > hi + 1e-3 + 2e-5 * abs(hi):
+                add('cost-outside-branch-range', f'cost-outside-branch-range/{metric}' + sfx, f'{what}={got[name]} outside [{lo}, {hi}]{where}', label)
+
+    def assign_and_compare(spec_binding, single, full, thetas, label, tag, do_forward=None):
+        """re-assign the metric(s) through the public setter on the live object, then read and compare every metric in force"""
+        res['transitions'] += 1
+        try:
+            if single:
+                nas.cost_specification = SPEC[spec_binding[0][1]]
+            else:
+                nas.cost_specification = {name: SPEC[metric] for name, metric in spec_binding}
+            if do_forward is not None:
+                forward(do_forward)
+                thetas = read_thetas()
+            with torch.no_grad():
+                if single:
+                    got = {None: float(nas.cost)}
+                    binding = [(None, spec_binding[0][1])]
+                else:
+                    got = {name: float(nas.get_cost(name)) for name, _ in spec_binding}
+                    binding = spec_binding
+        except Exception as e:
+            add('cost-raises', 'cost-raises/proto=' + tag, f'{type(e).__name__}: {str(e)[:200]} [protocol step {tag}]', label)
+            return thetas
+        compare(got, binding, full, thetas, label, tag)
+        return thetas
+
+    D0 = [('params', 'params'), ('ops', 'ops')]
     for vi in range(nmax):
-        for T in b['temperatures']:
-            for mode, training in modes:
+        for ti, T in enumerate(temps):
+            for mi, (mode, training) in enumerate(MODES):
                 if tier == 'quick' and (vi + int(T * 10) + len(mode)) % 3 != 0 and nmax > 40:
                     continue
-                for full in (False, True):
-                    label = {'vec': vi, 'T': T, 'mode': mode, 'training': training, 'full_cost': full}
-                    if only is not None and only != label:
-                        continue
-                    with torch.no_grad():
-                        for bi, (_, m) in enumerate(combs):
-                            v = vecs[bi][(vi * (bi + 1) + bi) % len(vecs[bi])]
-                            m.alpha.copy_(torch.tensor(v))
-                            m.sample_alpha = m.sample_alpha_gs if mode.startswith('gumbel') else m.sample_alpha_sm
-                    nas.update_softmax_options(temperature=T, hard=mode in ('hard', 'gumbel-hard'))
-                    nas.train(training)
-                    nas.full_cost = full
-                    res['states'] += 1
-                    res['transitions'] += 1
-                    try:
-                        torch.manual_seed(4242 + vi)
-                        with torch.no_grad():
-                            nas(x)
-                            got = {k: float(nas.get_cost(k)) for k in ('params', 'ops')}
-                    except Exception as e:
-                        add('cost-raises', 'cost-raises', f'{type(e).__name__}: {str(e)[:200]}', label)
-                        continue
-                    thetas = [m.theta_alpha.detach().clone() for _, m in combs]
-                    for metric in ('params', 'ops'):
-                        res['evals'] += 1
-                        want = fixed[metric] if full else 0.0
-                        lo = hi = want
-                        for bn, th in zip(bnames, thetas):
-                            bc = [br[metric] for br in blocks[bn]['branches']]
-                            want += sum(float(t) * c for t, c in zip(th, bc))
-                            lo += min(bc)
-                            hi += max(bc)
-                        ok, why = tol.cost_close(got[metric], want)
-                        if not (abs(got[metric] - want) <= 1e-3 + 2e-5 * max(abs(want), 1)):
-                            add('cost-not-weighted-mix', f'cost-not-weighted-mix/{metric}/full={int(full)}',
-                                f'get_cost({metric})={got[metric]} but sum_i theta_i*cost_i (+fixed) = {want} '
-                                f'(theta={[[round(float(t), 4) for t in th] for th in thetas]})', label)
-                        if got[metric] < lo - 1e-3 - 2e-5 * abs(lo) or got[metric] > hi + 1e-3 + 2e-5 * abs(hi):
-                            add('cost-outside-branch-range', f'cost-outside-branch-range/{metric}', f'get_cost({metric})={got[metric]} outside [{lo}, {hi}]', label)
-                    # hard selection: full cost == cost of the exported network
-                    if mode == 'hard' and full and not any(sb['branches'][int(torch.argmax(th))] == 'fblk' for sb, th in zip(sblocks, thetas)):
+                for fi, full in enumerate((False, True)):
+                    # position in the full enumeration: a function of the configuration only (the same on replay of a single state)
+                    pos = ((vi * len(temps) + ti) * len(MODES) + mi) * 2 + fi
+                    var = (pos // 7) % 10
+                    protos = PROTOS if tier == 'thorough' else [QUICK_ROT[pos % 7]]
+                    for proto in protos:
+                        cfg = {'vec': vi, 'T': T, 'mode': mode, 'training': training, 'full_cost': full}
+                        label = dict(cfg)
+                        if proto != 'plain':
+                            label.update(proto=proto, var=var)
+                        if not selected(label):
+                            continue
+                        tag = None if proto == 'plain' else proto + ':main'
+                        aborted = False
+                        # ---- train_selection protocols: freeze, visit a neighbouring configuration, (unfreeze,) go on
+                        if proto in ('ts-off', 'ts-on'):
+                            aspect = ASPECTS[var % len(ASPECTS)]
+                            pre = _neighbour(cfg, aspect, nmax, temps)
+                            try:
+                                nas.train_selection = False
+                                res['transitions'] += 1
+                                set_config(pre)
+                                forward(pre, seed_off=1000)
+                                with torch.no_grad():
+                                    got = {k: float(nas.get_cost(k)) for k in ('params', 'ops')}
+                                compare(got, D0, pre['full_cost'], read_thetas(), label, f'{proto}:neighbour')
+                                if proto == 'ts-on':
+                                    nas.train_selection = True
+                                    res['transitions'] += 1
+                            except Exception as e:
+                                add('cost-raises', f'cost-raises/proto={proto}:neighbour',
+                                    f'{type(e).__name__}: {str(e)[:200]} [neighbouring configuration {pre}]', label)
+                        set_config(cfg)
                         try:
+                            if proto == 'spec-single':
+                                # dictionary -> single A -> single B -> original dictionary; forward before or after the first assignment
+                                first = ('ops', 'params')[var % 2]
+                                second = 'params' if first == 'ops' else 'ops'
+                                if (var // 2) % 2 == 0:
+                                    forward(cfg)
+                                    thetas = read_thetas()
+                                    thetas = assign_and_compare([(None, first)], True, full, thetas, label, f'{proto}:first={first}')
+                                else:
+                                    thetas = assign_and_compare([(None, first)], True, full, None, label, f'{proto}:first={first}', do_forward=cfg)
+                                    if thetas is None:      # the assignment itself raised before the forward
+                                        forward(cfg)
+                                        thetas = read_thetas()
+                                assign_and_compare([(None, second)], True, full, thetas, label, f'{proto}:second={second}')
+                                nas.cost_specification = {'params': params, 'ops': ops}
+                                res['transitions'] += 1
+                            elif proto == 'spec-dict':
+                                kind = DICT_ROT[var % len(DICT_ROT)]
+                                forward(cfg)
+                                thetas = read_thetas()
+                                assign_and_compare(DICT_KINDS[kind], False, full, thetas, label, f'{proto}:{kind}')
+                                nas.cost_specification = {'params': params, 'ops': ops}
+                                res['transitions'] += 1
+                            else:
+                                forward(cfg)
+                                thetas = read_thetas()
                             with torch.no_grad():
-                                exp = nas.export()
-                                r = D.ref_costs(exp, x, None)
-                            for metric in ('params', 'ops'):
-                                res['evals'] += 1
-                                if abs(got[metric] - r[metric]) > 1e-3 + 2e-5 * abs(r[metric]):
-                                    add('hard-cost-differs-from-export', f'hard-cost-differs-from-export/{metric}',
-                                        f'hard selection, full_cost: get_cost({metric})={got[metric]} but the exported network costs {r[metric]}', label)
+                                got = {k: float(nas.get_cost(k)) for k in ('params', 'ops')}
                         except Exception as e:
-                            add('export-raises', 'export-raises', f'{type(e).__name__}: {str(e)[:200]}', label)
-                    res['outcomes'].add('checked')
-                    res['nontrivial'].append(f'{ssig}/{vi}/{T}/{mode}/{training}/{full}')
+                            add('cost-raises', 'cost-raises' + ('' if tag is None else '/proto=' + tag), f'{type(e).__name__}: {str(e)[:200]}', label)
+                            aborted = True
+                        if not aborted:
+                            compare(got, D0, full, thetas, label, tag)
+                            # hard selection: full cost == cost of the exported network
+                            if mode == 'hard' and full and not any(sb['branches'][int(torch.argmax(th))] == 'fblk' for sb, th in zip(sblocks, thetas)):
+                                try:
+                                    with torch.no_grad():
+                                        exp = nas.export()
+                                        r = D.ref_costs(exp, x, None)
+                                    for metric in ('params', 'ops'):
+                                        res['evals'] += 1
+                                        if abs(got[metric] - r[metric]) > 1e-3 + 2e-5 * abs(r[metric]):
+                                            add('hard-cost-differs-from-export', f'hard-cost-differs-from-export/{metric}' + ('' if tag is None else '/proto=' + tag),
+                                                f'hard selection, full_cost: get_cost({metric})={got[metric]} but the exported network costs {r[metric]}', label)
+                                except Exception as e:
+                                    add('export-raises', 'export-raises' + ('' if tag is None else '/proto=' + tag), f'{type(e).__name__}: {str(e)[:200]}', label)
+                            res['outcomes'].add('checked')
+                            res['nontrivial'].append(f'{ssig}/{vi}/{T}/{mode}/{training}/{full}' + ('' if proto == 'plain' else f'/{proto}.{var}'))
+                        # every state leaves the live object with the original dictionary specification and a trainable selection
+                        try:
+                            if proto == 'ts-off':
+                                nas.train_selection = True
+                                res['transitions'] += 1
+                            if aborted and proto.startswith('spec'):
+                                nas.cost_specification = {'params': params, 'ops': ops}
+                        except Exception as e:
+                            add('cost-raises', f'cost-raises/proto={proto}:restore', f'{type(e).__name__}: {str(e)[:200]}', label)
+                        if proto.startswith('spec'):
+                            del trail[:]
+                        trail.append(label)
+                        del trail[:-TRAIL]
+    if not wanted and res['violations']:
+        # smallest replayable case: the state alone whenever that reproduces the violation on a fresh SuperNet, else the state preceded
+        # by the recorded part of the history (first violation of every signature; the others keep the history, which is always valid)
+        firsts = {}
+        for v in res['violations']:
+            firsts.setdefault(v['sig'], v)
+        by_state = {}
+        for v in firsts.values():
+            if 'after' in v['case']:
+                by_state.setdefault(repr(sorted(v['case']['only'].items())), []).append(v)
+        for vs in by_state.values():
+            single = dict(base_case, only=vs[0]['case']['only'])
+            try:
+                alone = {w['sig'] for w in run_case(single, seed)['violations']}
+            except Exception:
+                alone = set()
+            for v in vs:
+                if v['sig'] in alone:
+                    v['case'] = dict(single)
     res['outcomes'] = sorted(res['outcomes'])
     res['sample'] = {'prog': prog, 'branch_costs': {bn: [(br['params'], br['ops']) for br in blocks[bn]['branches']] for bn in bnames},
                      'fixed': fixed, 'vectors_per_block': [len(v) for v in vecs]}
